@@ -1,6 +1,7 @@
 """C01 — TR-31 wrap then unwrap returns the original key and header."""
 from core import Case
-from props.tr31util import VERS, rb, rs, rand_blocks, make_header, header_tuple, wrap_case, unwrap_case, PRINTABLE, tr31
+from props.tr31util import VERS, rb, rs, rand_blocks, make_header, header_tuple, wrap_case, unwrap_case, PRINTABLE, tr31, Session
+from core import call_impl
 
 OBLIGATIONS = ["Psec.Props.C01.wrap_unwrap", "Psec.Props.C01.wrap_header_string", "Psec.Props.C01.wrap_readonly", "Psec.Tr31.blocks_load_dump", "Psec.Tr31.load_assemble", "Psec.Tr31.wrap_facts", "Psec.Tr31.extractKey_clear"]
 TRUSTED_BASE = ["Lean 4.33 kernel", "hypothesis Ciphers.Lawful", "correspondence harness (entropy interposed) and compiled driver", "Python str/bytes/dict semantics as modelled in Py.lean"]
@@ -39,8 +40,44 @@ def scenario(c, rng, ver, ksize, keylen, mask, blocks, as_str=False, reserved=No
     return w
 
 
+def reuse_sequence(c, rng, ver):
+    """one KeyBlock object reused: wrap, re-key (kb.kbpk = ...), change attributes / blocks, wrap again; every block must
+    unwrap on a FRESH object under the KBPK current at wrap time to the same key and header"""
+    bs, ksizes, ml = VERS[ver]
+    ks = rng.choice(ksizes)
+    h = make_header(rng, ver, rand_blocks(rng, rng.randrange(0, 3)))
+    se = Session(c, rb(rng, ks), h)
+    for step in range(rng.randrange(3, 7)):
+        what = rng.choice(["wrap", "wrap", "rekey", "setblock", "version", "str", "unwrap"])
+        if what == "rekey":
+            se.setkbpk(rb(rng, rng.choice(ksizes)))
+        elif what == "setblock":
+            se.setblock(rs(rng, 2).replace("P", "Q").replace("p", "q"), rs(rng, rng.randrange(0, 10)))
+        elif what == "version":
+            se.set(0, rng.choice([v for v in "ABCD" if len(se.kbpk) in VERS[v][1]]))
+        elif what == "str":
+            se.str()
+        else:
+            key = rb(rng, rng.choice([0, 8, 16, 24]))
+            before = header_tuple(se.kb.header)
+            w = se.wrap(key, rng.choice([None, 0, 32]))
+            if w.ok:
+                u = call_impl("tr31.unwrap", (se.kbpk, w.value), stream="tr31")
+                if not u.ok:
+                    c.fail(f"block wrapped by a reused (re-keyed / modified) object is rejected by a fresh unwrap: {u.exc!r}")
+                elif u.value[1] != key or header_tuple(u.value[0]) != before:
+                    c.fail("block wrapped by a reused object unwraps to a different key or header")
+                if what == "unwrap":
+                    se.unwrap(w.value)
+
+
 def generate(rng, tier, seed):
     reps = 1 if tier == "quick" else 4
+    for ver in "ABCD":
+        for _ in range(15 * reps):
+            c = Case(f"{ver}:reused-object", {})
+            reuse_sequence(c, rng, ver)
+            yield c
     for ver, (bs, ksizes, ml) in VERS.items():
         for ksize in (8, 16, 24, 32, 0, 7, 17):
             for keylen in (list(range(0, 34)) + [40, 47, 48, 64]) if ksize in ksizes else (0, 16):
